@@ -9,11 +9,15 @@ import (
 	"sort"
 	"strconv"
 	"strings"
+	"sync"
+	"sync/atomic"
 	"syscall"
 	"time"
 
 	"github.com/criyle/go-sandbox/container"
 	"github.com/criyle/go-sandbox/pkg/forkexec"
+	"github.com/criyle/go-sandbox/pkg/memfd"
+	"github.com/criyle/go-sandbox/pkg/unixsocket"
 	"github.com/criyle/go-sandbox/runner"
 )
 
@@ -372,6 +376,77 @@ func runC06(res *Result, d *Driver, tier string, seed uint64) {
 				syscall.Close(i)
 			}
 		}
+	}
+	// launches while other goroutines of the launching process create descriptors through the library (the socket pairs of
+	// container environments, sealed memfds, pipes): whatever they create must be close-on-exec from the moment it exists
+	{
+		stop := make(chan struct{})
+		var wg sync.WaitGroup
+		var created int64
+		for g := 0; g < 4; g++ {
+			wg.Add(1)
+			go func(g int) {
+				defer wg.Done()
+				for {
+					select {
+					case <-stop:
+						return
+					default:
+					}
+					switch g % 2 {
+					case 0:
+						if a, b, err := unixsocket.NewSocketPair(); err == nil {
+							a.Close()
+							b.Close()
+						}
+					default:
+						if f, err := memfd.DupToMemfd("verif-c06", strings.NewReader("x")); err == nil {
+							f.Close()
+						}
+					}
+					atomic.AddInt64(&created, 1)
+				}
+			}(g)
+		}
+		nL := 120
+		if tier == "thorough" {
+			nL = 1500
+		}
+		pf := openProbe()
+		for it := 0; it < nL; it++ {
+			report := fmt.Sprintf("%s/creport-%d", tmp, it)
+			r := &forkexec.Runner{Args: []string{"probe", "report fds " + report + ";exit 0"}, Env: []string{}, ExecFile: pf.Fd(), Files: []uintptr{devnull.Fd(), devnull.Fd(), devnull.Fd()}}
+			if it%2 == 1 {
+				r.SyncFunc = func(int) error { return nil }
+			}
+			pid, err := r.Start()
+			var ws syscall.WaitStatus
+			if err == nil {
+				syscall.Wait4(pid, &ws, 0, nil)
+			}
+			res.Case("concurrent-creators "+itoa(it), true, "real-start-concurrent-creators")
+			res.Traces++
+			if err != nil || !ws.Exited() || ws.ExitStatus() != 0 {
+				res.Mismatch(Mismatch{Kind: "oracle", What: "real Start next to goroutines creating descriptors", Input: fmt.Sprintf("launch %d", it), Impl: fmt.Sprintf("start failed: %v %v", err, ws), Oracle: "unknown"})
+				continue
+			}
+			data, _ := os.ReadFile(report)
+			os.Remove(report)
+			var extra []string
+			for _, f := range strings.Fields(strings.TrimPrefix(strings.TrimSpace(string(data)), "fds")) {
+				p := strings.Split(f, ":")
+				if n, _ := strconv.Atoi(p[0]); n >= 3 {
+					extra = append(extra, f)
+				}
+			}
+			if len(extra) > 0 {
+				res.Mismatch(Mismatch{Kind: "oracle", What: "the program's descriptor table is exactly the caller's list also while other goroutines of the launcher create socket pairs and memfds through the library (C06: nothing more)", Input: fmt.Sprintf("launch %d of %d (files = 3 x /dev/null, vfork=%v) next to 4 goroutines looping unixsocket.NewSocketPair / memfd.DupToMemfd (%d created so far)", it, nL, it%2 == 0, atomic.LoadInt64(&created)), Impl: "extra descriptors in the program: " + strings.Join(extra, " "), Oracle: "violates"})
+				break
+			}
+		}
+		pf.Close()
+		close(stop)
+		wg.Wait()
 	}
 	// the same contract inside a container: the launcher there is the container init, whose own descriptors (its stdio
 	// included) must not reach the program — also when the caller lists fewer than three descriptors
